@@ -5,6 +5,12 @@ E1 = "symx"
 E2 = "sqlsem"
 E3 = "pybmc"
 CHECKS = {
+    "C07": dict(
+        engine=E2, category="translation_validation",
+        technique="translation validation: compiled IN/NOT IN (literal, bound+post-compile expansion, cache re-bind path) re-parsed with the backend grammar; equality with the OR-of-equalities meaning under 3VL decided by z3 for all column values; sqlite3 replay",
+        text="For value lists of length 0..4 with every NULL pattern (0..6 in thorough), duplicates and tuples of arity 2-3, in 18 boolean/CASE/comparison/IS contexts, on sqlite/postgresql/mysql, in three delivery modes (literal_binds, bound with expansion, compiled for another list length then re-bound via construct_params(extracted_parameters)), z3 proves the emitted predicate equals OR_i(x = v_i) (resp. its 3VL negation) for every column value incl. NULL, or yields a row; SQLite's empty-set sub-select is executed on sqlite3 for its rows; SQLite disagreements are replayed on sqlite3.",
+        note="Trusted: vlib/sqlparse.py grammars, 3VL semantics in vlib/sqlsem.py, z3, sqlite3. PostgreSQL/MySQL: reference grammar only.",
+        ref="DESIGN.md §4 C07"),
     "C19": dict(
         engine=E3, category="model_checking",
         technique="bounded model checking: util/topological.py interpreted from its AST over symbolic graphs with merged control flow, one z3 (QF_BV/SAT) validity query per obligation, unwinding assertions, counterexamples replayed on the real functions",
